@@ -18,7 +18,10 @@ Inductive case :=
   (* the real default chain (everything ahead of the resolver) with a counting stand-in for
      the resolver: path 0 = wire fast path, 1 = decoded UDP, 2 = decoded TCP; the queried
      name was / was not already cached; did the client get a reply; resolver invocations *)
-| CaseChain (n_entries : N) (ps : list prefix) (src : addr) (path : N) (cached replied : bool) (resolver_calls : N).
+| CaseChain (n_entries : N) (ps : list prefix) (src : addr) (path : N) (cached replied : bool) (resolver_calls : N)
+  (* a burst of n high-amplification queries from one source through the same chain: was any
+     of them answered; resolver invocations over the burst *)
+| CaseChainBurst (n_entries : N) (ps : list prefix) (src : addr) (n : N) (any_reply : bool) (resolver_calls : N).
 
 Definition all_ok (ps : list prefix) : bool := forallb prefix_ok ps.
 
@@ -61,6 +64,12 @@ Definition check_case (c : case) : bool :=
       | AclNext => replied && (calls =? (if cached then 0 else 1))
       | AclDrop => negb replied && (calls =? 0)
       end
+  | CaseChainBurst ne ps src n any_reply calls =>
+      all_ok ps &&
+      match acl_serve (new_set (acl_effective ne ps)) false (Some src) with
+      | AclNext => true
+      | AclDrop => negb any_reply && (calls =? 0)
+      end
   end.
 
 Definition spec_case (c : case) : bool :=
@@ -81,4 +90,6 @@ Definition spec_case (c : case) : bool :=
       (* outside the list: no reply and no resolution, on every path, cached or not;
          inside: a reply *)
       if spec_contains (acl_effective ne ps) src then replied else negb replied && (calls =? 0)
+  | CaseChainBurst ne ps src n any_reply calls =>
+      if spec_contains (acl_effective ne ps) src then true else negb any_reply && (calls =? 0)
   end.
